@@ -6,6 +6,8 @@ independent formula (explicit cos/sin images of basis vectors, Rodrigues, quater
 """
 import numpy as np
 
+from vf.tx import amax as _amax
+
 from vf.core import Workload
 from vf import taps, gen, tx
 
@@ -75,7 +77,7 @@ class CCWMonitor(taps.Monitor):
             ctx.fail("rotation_constructor_does_not_rotate_ccw_by_the_signed_angle", cls=self.which, mech=unit, theta=st["theta"], err=float(max(e1, e2)))
         if e3 > 1e-9:
             ctx.fail("rotation_constructor_does_not_fix_its_axis", cls=self.which, mech=unit)
-        if np.abs(np.asarray(r.h_matrix)[:-1, -1]).max() > 0 or type(r).__name__ != "Rotation":
+        if _amax(np.asarray(r.h_matrix)[:-1, -1]) > 0 or type(r).__name__ != "Rotation":
             ctx.fail("rotation_constructor_result_is_not_a_pure_rotation", cls=self.which)
 
 
@@ -87,7 +89,7 @@ class AxisAngleMonitor(taps.Monitor):
         if not taps.is_menpo(r):
             return None
         m = np.asarray(r.rotation_matrix, dtype=float)
-        if m.shape[0] not in (2, 3) or np.abs(m.T @ m - np.eye(len(m))).max() > 1e-9 or np.linalg.det(m) < 0:
+        if m.shape[0] not in (2, 3) or _amax(m.T @ m - np.eye(len(m))) > 1e-9 or np.linalg.det(m) < 0:
             return None
         if len(m) == 3:
             # away from the identity and half-turns: sin|theta| = |skew part| / ...
@@ -109,7 +111,7 @@ class AxisAngleMonitor(taps.Monitor):
                 ctx.fail("2d_axis_is_not_z", cls="2D")
                 return
             e = abs(np.angle(np.exp(1j * (float(angle) - true))))
-            if e > 1e-7:
+            if not (e <= 1e-7):
                 mech = "reported_abs_of_negative_angle" if (true < 0 and abs(float(angle) - abs(true)) < 1e-7) else "other_wrong_angle"
                 ctx.fail("reported_angle_does_not_rebuild_the_2d_rotation", cls="2D", mech=mech, true_angle=true, reported=float(angle))
             return
@@ -119,7 +121,7 @@ class AxisAngleMonitor(taps.Monitor):
         rebuilt = rodrigues(axis, float(angle))
         e = np.abs(rebuilt - m).max()
         ctx.err("axis_angle_rebuild_3d", e)
-        if e > 1e-6:
+        if not (e <= 1e-6):
             flipped = np.abs(rodrigues(axis, -float(angle)) - m).max() < 1e-6
             ctx.fail("reported_axis_and_angle_do_not_rebuild_the_3d_rotation", cls="3D", mech="sign_flipped" if flipped else "other", err=float(e),
                      angle=float(angle))
@@ -141,10 +143,10 @@ class QuaternionMonitor(taps.Monitor):
             ctx.fail("quaternion_constructor_raised", cls="Rotation", mech=type(exc).__name__)
             return
         e = np.abs(np.asarray(r.rotation_matrix) - quat_to_matrix(st["q"])).max()
-        if e > 1e-9:
+        if not (e <= 1e-9):
             ctx.fail("quaternion_constructor_builds_the_wrong_rotation", cls="Rotation", err=float(e))
         back = np.asarray(r.as_vector())
-        if np.abs(back - st["q"]).max() > 1e-8:
+        if _amax(back - st["q"]) > 1e-8:
             ctx.fail("quaternion_does_not_round_trip", cls="Rotation", given=st["q"], got=back)
 
 
@@ -186,7 +188,7 @@ class ScaleMonitor(taps.Monitor):
             if name != "NonUniformScale":
                 ctx.fail("different_factors_did_not_give_a_non_uniform_scale", cls=name, factors=a)
             exp = np.diag(np.append(a, 1.0))
-        if np.asarray(r.h_matrix).shape != exp.shape or np.abs(np.asarray(r.h_matrix) - exp).max() > 1e-12:
+        if np.asarray(r.h_matrix).shape != exp.shape or _amax(np.asarray(r.h_matrix) - exp) > 1e-12:
             ctx.fail("scale_factory_built_the_wrong_matrix", cls=name, factors=a)
 
 
@@ -210,7 +212,7 @@ class AboutCentreMonitor(taps.Monitor):
             if not isinstance(tr, mt.Homogeneous):
                 return None
             h = np.asarray(tr.h_matrix, dtype=float)
-            if np.abs(h[-1, :-1]).max() > 0:
+            if _amax(h[-1, :-1]) > 0:
                 return None
             st["A"], st["b"] = h[:d, :d].copy(), h[:d, d].copy()
         elif self.which == "scale":
@@ -260,7 +262,7 @@ class AboutCentreMonitor(taps.Monitor):
             ctx.fail("about_centre_transform_moves_the_centre", cls=cls, mech=mech, err=float(e_c))
         elif e_o > 1e-9 * scale:
             ctx.fail("about_centre_transform_does_not_act_as_the_plain_transform_on_offsets", cls=cls, mech=mech, err=float(e_o))
-        if np.abs(np.asarray(obj.centre()) - c).max() > 0:
+        if _amax(np.asarray(obj.centre()) - c) > 0:
             ctx.fail("about_centre_builder_moved_the_object", cls=cls)
         ctx.see("about_centre_objects", (self.which, cls, d))
 
@@ -288,7 +290,7 @@ class TcoordsMonitor(taps.Monitor):
         a, b = (ic, tc) if self.inverse else (tc, ic)
         e = np.abs(np.asarray(t.apply(a)) - b).max()
         ctx.err("tcoords_corners", e)
-        if e > 1e-9 * max(h, w):
+        if not (e <= 1e-9 * max(h, w)):
             ctx.fail("texture_coordinate_transform_maps_corners_wrongly", cls="image_coords_to_tcoords" if self.inverse else "tcoords_to_image_coords",
                      mech="square" if h == w else "non_square", err=float(e), shape=[h, w])
 
@@ -436,7 +438,7 @@ def w_scale_tcoords(ctx, rng, i):
         b = mt.image_coords_to_tcoords(shp)
         x = rng.random((6, 2))
         e = max(tx.maxdiff(b.apply(a.apply(x)), x), tx.maxdiff(a.apply(b.apply(x * 10)), x * 10))
-        if e > 1e-9 * max(shp):
+        if not (e <= 1e-9 * max(shp)):
             ctx.fail("texture_coordinate_transforms_are_not_mutual_inverses", cls="tcoords", err=e)
         corners_t = np.array([[0, 0], [1, 0], [0, 1], [1, 1.0]])
         corners_i = np.array([[shp[0] - 1, 0], [shp[0] - 1, shp[1] - 1], [0, 0], [0, shp[1] - 1]], dtype=float)
@@ -456,7 +458,7 @@ def w_scale_tcoords(ctx, rng, i):
         m = ms.TexturedTriMesh(rng.random((4, 3)), np.array([[0, 0], [1, 0], [0, 1], [1, 1.0]]), tex, trilist=np.array([[0, 1, 2], [1, 2, 3]]))
         px = m.tcoords_pixel_scaled().points
         exp = np.array([[shp[0] - 1, 0], [shp[0] - 1, shp[1] - 1], [0, 0], [0, shp[1] - 1]], dtype=float)
-        if np.abs(px - exp).max() > 1e-9 * max(shp):
+        if _amax(px - exp) > 1e-9 * max(shp):
             ctx.fail("texture_coordinate_transform_maps_corners_wrongly", cls="TexturedTriMesh.tcoords_pixel_scaled", mech="square" if shp[0] == shp[1] else "non_square")
     ctx.count_case(("scale_tcoords", mode, d), nontrivial=True)
 
